@@ -1420,9 +1420,11 @@ pub fn max_loop_program(rng: &mut Rng) -> Program {
     let mut pool: Vec<usize> = Vec::new();
     for _ in 0..2 {
         let lo = rng.below(3) as u32;
-        let op = match rng.below(3) {
+        let op = match rng.below(4) {
             0 => Op::SmtLoop(body, lo, big(rng)),
             1 => Op::LoopFin(body, lo, big(rng)),
+            // unbounded with a lower bound next to u32::MAX or 2^31 (sums of two lower bounds wrap)
+            2 => Op::LoopInf(body, big(rng) - rng.below(2) as u32),
             _ => {
                 let hi = big(rng);
                 Op::LoopFin(body, hi - 3, hi)
@@ -1573,4 +1575,73 @@ pub fn loopword_program(rng: &mut Rng) -> Program {
         ops.push(Op::Union(3, 4));
     }
     Program { points: letters.to_vec(), ops }
+}
+
+/// Intersections of three or more languages that are pairwise compatible but jointly empty (or jointly a single
+/// word): {w1,w2} & {w2,w3} & {w1,w3}; [a-c] & not a & not b & not c; also under a prefix, inside a union, starred
+pub fn joint_program(rng: &mut Rng) -> Program {
+    let mut ops: Vec<Op> = Vec::new();
+    let k = 3 + rng.usize(2);
+    let empty = rng.chance(2, 3);
+    if rng.chance(1, 2) {
+        // words: operand i is the union of all words but w_i (jointly empty), or all but w_i and one common word
+        let words: Vec<Vec<u32>> = (0..k).map(|i| vec![0x61 + i as u32, 0x62 + i as u32]).collect();
+        let common: Vec<u32> = vec![0x7a, 0x7a];
+        for w in &words {
+            ops.push(Op::Str(w.clone()));
+        }
+        ops.push(Op::Str(common));
+        let mut parts = Vec::new();
+        for i in 0..k {
+            let mut v: Vec<usize> = (0..k).filter(|&j| j != i && (k > 3 || true)).filter(|&j| (j + 1) % k != i || k == 3).collect();
+            if v.len() < 2 {
+                v = (0..k).filter(|&j| j != i).collect();
+            }
+            if !empty {
+                v.push(k);
+            }
+            ops.push(Op::UnionList(v));
+            parts.push(ops.len() - 1);
+        }
+        if k == 3 || rng.chance(1, 2) {
+            ops.push(Op::InterList(parts));
+        } else {
+            // the same as nested binary intersections
+            let mut acc = parts[0];
+            for &p in &parts[1..] {
+                ops.push(Op::Inter(acc, p));
+                acc = ops.len() - 1;
+            }
+        }
+    } else {
+        // character classes: a range and the complements of each of its characters (but one, if not empty)
+        let lo = 0x61u32;
+        ops.push(Op::Range(lo, lo + k as u32 - 1));
+        let mut parts = vec![0usize];
+        let keep = if empty { k } else { rng.usize(k) };
+        for i in 0..k {
+            if i == keep {
+                continue;
+            }
+            ops.push(Op::Char(lo + i as u32));
+            ops.push(Op::Comp(ops.len() - 1));
+            parts.push(ops.len() - 1);
+        }
+        ops.push(Op::InterList(parts));
+    }
+    let core = ops.len() - 1;
+    // and in context
+    ops.push(Op::Char(0x78));
+    let x = ops.len() - 1;
+    match rng.below(5) {
+        0 => ops.push(Op::Concat(x, core)),
+        1 => ops.push(Op::Union(core, x)),
+        2 => ops.push(Op::Star(core)),
+        3 => {
+            ops.push(Op::Concat(x, core));
+            ops.push(Op::Plus(ops.len() - 1));
+        }
+        _ => ops.push(Op::Comp(core)),
+    }
+    Program { points: vec![0x61, 0x62, 0x63, 0x78, 0x7a], ops }
 }
